@@ -137,6 +137,19 @@ class Opaque:
 # ---------------------------------------------------------------- conversions
 
 
+
+class Unknown(Opaque):
+    """An attribute of a pre-existing (shared) object that no contract models: its value is arbitrary
+    (every test on it forks on a fresh boolean) and a mutating call through it is a write to its owner."""
+
+    __slots__ = ("owner", "path")
+
+    def __init__(self, owner: int, path: str):
+        super().__init__(f"unmodelled:{path}")
+        self.owner = owner
+        self.path = path
+
+
 def z(v: object, kind: str | None = None) -> z3.ExprRef:
     """Python/engine value -> z3 term of the given kind."""
     if isinstance(v, Sym):
